@@ -105,7 +105,7 @@ func checkC19(r *Run) {
 		if fn.Pkg == nil || short(fn.Pkg.Pkg.Path()) != "crypto/keys" {
 			continue
 		}
-		Instrs(fn, func(in ssa.Instruction) {
+		InstrsRaw(fn, func(in ssa.Instruction) {
 			ci, ok := in.(ssa.CallInstruction)
 			if !ok || !ci.Common().IsInvoke() {
 				return
